@@ -240,6 +240,17 @@ func genC05(r *rand.Rand, tier string) []interface{} {
 	m := rItem{T: "stanza", Kind: 0, ID: 2, Var: 0}
 	m.render()
 	out = append(out, recvIn{SM: false, Items: []rItem{a, m}, Cut: -1})
+	// corner: a payload nested as deep as the peer likes (generic content is decoded into a tree): the stack of the
+	// receiving goroutine must not grow with it
+	for _, kind := range []int{2, 0} {
+		for _, comp := range []bool{false, true} {
+			d := rItem{T: "stanza", Kind: kind, ID: 1, Deep: 400000}
+			d.render()
+			after := rItem{T: "stanza", Kind: 1, ID: 2, Var: 0}
+			after.render()
+			out = append(out, recvIn{Component: comp, Items: []rItem{d, after}, Cut: -1})
+		}
+	}
 	for i := 0; i < n; i++ {
 		in := recvIn{Cut: -1}
 		in.Component = r.Intn(4) == 0
